@@ -1,4 +1,232 @@
 (* C14 - temporal operators and annotations mean what the documentation says.
-   Property theorems only (being filled in). *)
-From Coq Require Import List ZArith.
-From MV Require Import Temporal.ITree Temporal.Operators Temporal.Allen.
+   Property theorems only; each is closed by an exact reference to a lemma of
+   Temporal/OperatorsProofs.v or Temporal/AllenProofs.v. Times are int64 Unix
+   nanoseconds; [holds i t] = the stored interval i contains the instant t;
+   [atom_holds St a t] = some stored interval of atom a contains t;
+   [store_valid] = what ast.NewInterval / TemporalStore.Add guarantee;
+   [coalesced] = intervals of one atom pairwise neither overlapping nor
+   adjacent. The evaluators ([diamond_facts], [box_facts], [eval_plain],
+   [derive_one], [resolve_past], [resolve_future]) are the model of
+   engine/temporal.go in Temporal/Operators.v. *)
+From Coq Require Import List ZArith Bool Lia.
+From MV Require Import Temporal.ITree Temporal.Operators Temporal.OperatorsProofs Temporal.Allen Temporal.AllenProofs.
+Import ListNotations.
+Open Scope Z_scope.
+
+(* ---- past and future diamond: some instant of the window *)
+Theorem diamond_minus_exact : forall now d1 d2 St p ts s f s',
+  0 <= d1 <= d2 -> in64 now -> in64 d2 -> minInt64 <= now - d2 -> store_valid St ->
+  (In (f, s') (diamond_facts St (resolve_past now (BDur d1, BDur d2)) p ts s) <->
+   In f St /\ fst (fst f) = p /\ unify ts (snd (fst f)) s = Some s' /\
+   exists t, now - d2 <= t <= now - d1 /\ holds (snd f) t).
+Proof. exact OperatorsProofs.diamond_minus_exact. Qed.
+Print Assumptions diamond_minus_exact.
+
+Theorem diamond_plus_exact : forall now d1 d2 St p ts s f s',
+  0 <= d1 <= d2 -> in64 now -> now + d2 <= maxInt64 -> store_valid St ->
+  (In (f, s') (diamond_facts St (resolve_future now (BDur d1, BDur d2)) p ts s) <->
+   In f St /\ fst (fst f) = p /\ unify ts (snd (fst f)) s = Some s' /\
+   exists t, now + d1 <= t <= now + d2 /\ holds (snd f) t).
+Proof. exact OperatorsProofs.diamond_plus_exact. Qed.
+Print Assumptions diamond_plus_exact.
+
+(* ---- past and future box on a coalesced store: every instant of the window *)
+Theorem box_minus_exact : forall now d1 d2 St p ts s a s',
+  0 <= d1 <= d2 -> in64 now -> in64 d2 -> minInt64 <= now - d2 -> store_valid St -> coalesced St ->
+  ((exists i, In (((p, a), i), s') (box_facts St (resolve_past now (BDur d1, BDur d2)) p ts s)) <->
+   unify ts a s = Some s' /\ forall t, now - d2 <= t <= now - d1 -> atom_holds St (p, a) t).
+Proof. exact OperatorsProofs.box_minus_exact. Qed.
+Print Assumptions box_minus_exact.
+
+Theorem box_plus_exact : forall now d1 d2 St p ts s a s',
+  0 <= d1 <= d2 -> in64 now -> now + d2 <= maxInt64 -> store_valid St -> coalesced St ->
+  ((exists i, In (((p, a), i), s') (box_facts St (resolve_future now (BDur d1, BDur d2)) p ts s)) <->
+   unify ts a s = Some s' /\ forall t, now + d1 <= t <= now + d2 -> atom_holds St (p, a) t).
+Proof. exact OperatorsProofs.box_plus_exact. Qed.
+Print Assumptions box_plus_exact.
+
+(* the solutions of an operator literal are exactly the facts selected above,
+   each extended by the binding of the annotation variables *)
+Theorem operator_solutions : forall now St l s w k s'',
+  t_op l = Some (k, w) ->
+  (In s'' (eval_tlit now St l s) <->
+   exists f s', s'' = bind_ann (t_ann l) (snd f) s' /\
+     In (f, s') (match k with
+                 | DiamondMinus => diamond_facts St (resolve_past now w) (t_pred l) (t_args l) s
+                 | BoxMinus => box_facts St (resolve_past now w) (t_pred l) (t_args l) s
+                 | DiamondPlus => diamond_facts St (resolve_future now w) (t_pred l) (t_args l) s
+                 | BoxPlus => box_facts St (resolve_future now w) (t_pred l) (t_args l) s
+                 end)).
+Proof. exact OperatorsProofs.operator_solutions. Qed.
+Print Assumptions operator_solutions.
+
+(* ---- an annotation @[S, E] with fresh distinct variables enumerates exactly
+   the stored intervals of the matching atoms (start and end as time constants) *)
+Theorem annotation_enumerates : forall now St p ts vs ve s s'',
+  vs <> ve -> lookup_var vs s = None -> lookup_var ve s = None ->
+  ~ In (TVar vs) ts -> ~ In (TVar ve) ts ->
+  (In s'' (eval_plain now St p ts (Some (BVar vs, BVar ve)) s) <->
+   exists f s', In f St /\ fst (fst f) = p /\ unify ts (snd (fst f)) s = Some s' /\
+     s'' = (ve, CTime (ke (snd f))) :: (vs, CTime (ks (snd f))) :: s').
+Proof. exact OperatorsProofs.annotation_enumerates. Qed.
+Print Assumptions annotation_enumerates.
+
+(* ---- a head annotation yields the derived atom with exactly the resolved
+   interval (timestamps as written, variables by their time/number value,
+   now = evaluation time, infinities, normalised as ast.NewInterval does);
+   an unresolvable one is an error *)
+Theorem head_time_exact : forall now r s cs h bs be,
+  r_time r = Some h -> inst_args (r_args r) s = Some cs ->
+  bound_value now s (fst h) = Some bs -> bound_value now s (snd h) = Some be ->
+  derive_one now r s = inl ((r_pred r, cs), Some (norm_iv (bs, be))).
+Proof. exact OperatorsProofs.head_time_exact. Qed.
+Print Assumptions head_time_exact.
+
+Theorem head_time_unresolved_is_error : forall now r s cs h,
+  r_time r = Some h -> inst_args (r_args r) s = Some cs ->
+  (bound_value now s (fst h) = None \/ bound_value now s (snd h) = None) ->
+  derive_one now r s = inr 1.
+Proof. exact OperatorsProofs.head_time_unresolved. Qed.
+Print Assumptions head_time_unresolved_is_error.
+
+(* ---- interval relations = documented definitions on closed intervals
+   [s, e] ([inside s e t] = s <= t <= e) *)
+Theorem allen_before_def : forall s1 e1 s2 e2, allen_before (closed s1 e1) (closed s2 e2) = true <-> e1 < s2.
+Proof. exact before_def. Qed.
+Print Assumptions allen_before_def.
+Theorem allen_after_def : forall s1 e1 s2 e2, allen_after (closed s1 e1) (closed s2 e2) = true <-> e2 < s1.
+Proof. exact after_def. Qed.
+Print Assumptions allen_after_def.
+Theorem allen_meets_def : forall s1 e1 s2 e2, allen_meets (closed s1 e1) (closed s2 e2) = true <-> e1 = s2.
+Proof. exact meets_def. Qed.
+Print Assumptions allen_meets_def.
+Theorem allen_overlaps_def : forall s1 e1 s2 e2, s1 <= e1 -> s2 <= e2 ->
+  (allen_overlaps (closed s1 e1) (closed s2 e2) = true <-> exists t, inside s1 e1 t /\ inside s2 e2 t).
+Proof. exact overlaps_def. Qed.
+Print Assumptions allen_overlaps_def.
+Theorem allen_during_def : forall s1 e1 s2 e2, s1 <= e1 ->
+  (allen_during (closed s1 e1) (closed s2 e2) = true <-> forall t, inside s1 e1 t -> inside s2 e2 t).
+Proof. exact during_def. Qed.
+Print Assumptions allen_during_def.
+Theorem allen_contains_def : forall s1 e1 s2 e2, s2 <= e2 ->
+  (allen_contains (closed s1 e1) (closed s2 e2) = true <-> forall t, inside s2 e2 t -> inside s1 e1 t).
+Proof. exact contains_def. Qed.
+Print Assumptions allen_contains_def.
+Theorem allen_starts_def : forall s1 e1 s2 e2, allen_starts (closed s1 e1) (closed s2 e2) = true <-> s1 = s2.
+Proof. exact starts_def. Qed.
+Print Assumptions allen_starts_def.
+Theorem allen_finishes_def : forall s1 e1 s2 e2, allen_finishes (closed s1 e1) (closed s2 e2) = true <-> e1 = e2.
+Proof. exact finishes_def. Qed.
+Print Assumptions allen_finishes_def.
+Theorem allen_equals_def : forall s1 e1 s2 e2, allen_equals (closed s1 e1) (closed s2 e2) = true <-> s1 = s2 /\ e1 = e2.
+Proof. exact equals_def. Qed.
+Print Assumptions allen_equals_def.
+
+(* converse pairs and symmetry, for all intervals including unbounded ones *)
+Theorem allen_converse : forall a b : iv,
+  allen_after a b = allen_before b a /\ allen_contains a b = allen_during b a.
+Proof. exact converse. Qed.
+Print Assumptions allen_converse.
+Theorem allen_symmetric : forall a b : iv,
+  allen_overlaps a b = allen_overlaps b a /\ allen_equals a b = allen_equals b a /\
+  allen_starts a b = allen_starts b a /\ allen_finishes a b = allen_finishes b a.
+Proof. exact symmetric. Qed.
+Print Assumptions allen_symmetric.
+Theorem allen_before_overlaps_after : forall s1 e1 s2 e2, s1 <= e1 -> s2 <= e2 ->
+  let a := closed s1 e1 in let b := closed s2 e2 in
+  (allen_before a b = true /\ allen_overlaps a b = false /\ allen_after a b = false) \/
+  (allen_before a b = false /\ allen_overlaps a b = true /\ allen_after a b = false) \/
+  (allen_before a b = false /\ allen_overlaps a b = false /\ allen_after a b = true).
+Proof. exact trichotomy. Qed.
+Print Assumptions allen_before_overlaps_after.
+
+(* ---- non-vacuity: a coalesced valid store, an evaluation time and windows
+   (zero-length, touching an end point) meeting every hypothesis above, and the
+   operators deciding differently on it *)
+Definition ex_store : list fact :=
+  [((0, [CName 1]), (Ts 1, Ts 2)); ((0, [CName 1]), (Ts 4, Ts 6)); ((0, [CName 2]), (NegInf, Ts 3))].
+Example ex_store_valid : store_valid ex_store.
+Proof.
+  intros f [H|[H|[H|[]]]]; subst; unfold proper, in64, ks, ke, minInt64, maxInt64; cbn;
+    repeat split; try discriminate; try lia.
+Qed.
+Example ex_store_coalesced : coalesced ex_store.
+Proof.
+  intros a i j Hi Hj. cbn in Hi, Hj.
+  destruct Hi as [Hi|[Hi|[Hi|[]]]]; destruct Hj as [Hj|[Hj|[Hj|[]]]];
+    inversion Hi; inversion Hj; subst; try congruence; try (left; reflexivity);
+    unfold ks, ke; cbn; lia.
+Qed.
+Example ex_hypotheses : 0 <= 1 <= 3 /\ in64 5 /\ in64 3 /\ minInt64 <= 5 - 3 /\ 5 + 3 <= maxInt64.
+Proof. unfold in64, minInt64, maxInt64. lia. Qed.
+(* now = 5: <-[1,3] sees [2,4]: both atoms; [-[1,3] neither is continuous on [2,4] for /c1 (gap at 3) *)
+Example ex_diamond_minus :
+  map (fun fs : fact * subst => fst (fst fs)) (diamond_facts ex_store (resolve_past 5 (BDur 1, BDur 3)) 0 [TVar 0] [])
+  = [(0, [CName 1]); (0, [CName 1]); (0, [CName 2])].
+Proof. vm_compute. reflexivity. Qed.
+Example ex_box_minus : box_facts ex_store (resolve_past 5 (BDur 1, BDur 3)) 0 [TVar 0] [] = [].
+Proof. vm_compute. reflexivity. Qed.
+(* zero-length window touching the end point 6 of [4,6]: now = 5, [+[1,1] *)
+Example ex_box_plus_touching :
+  map (fun fs : fact * subst => fst fs) (box_facts ex_store (resolve_future 5 (BDur 1, BDur 1)) 0 [TVar 0] [])
+  = [((0, [CName 1]), (Ts 4, Ts 6))].
+Proof. vm_compute. reflexivity. Qed.
+Example ex_box_plus_past_end : box_facts ex_store (resolve_future 5 (BDur 1, BDur 2)) 0 [TVar 0] [] = [].
+Proof. vm_compute. reflexivity. Qed.
+Example ex_annotation :
+  eval_plain 5 ex_store 0 [TCst (CName 2)] (Some (BVar 10, BVar 11)) []
+  = [[(11, CTime 3); (10, CTime minInt64)]].
+Proof. vm_compute. reflexivity. Qed.
+Example ex_head_time :
+  derive_one 5 {| r_pred := 7; r_args := [TVar 0]; r_time := Some (BVar 10, BNow); r_prem := [] |}
+             [(0, CName 1); (10, CTime 2)]
+  = inl ((7, [CName 1]), Some (Ts 2, Ts 5)).
+Proof. vm_compute. reflexivity. Qed.
+Example ex_overlaps_hyp : allen_overlaps (closed 1 3) (closed 3 5) = true /\ allen_meets (closed 1 3) (closed 3 5) = true.
+Proof. split; reflexivity. Qed.
+
+(* ---- witnesses outside the hypotheses (recorded observations / findings) *)
+(* N4: with a reversed past window [3,1] the diamond behaves like a box: the
+   fact [4,6] holds at 3 = now-2 ... here now = 7: window instants 4..6 would
+   be [now-3, now-1]; a fact holding only at 5 is not returned *)
+Theorem diamond_reversed_window_refuted :
+  let St := [((0, [CName 1]), (Ts 5, Ts 5))] in
+  diamond_facts St (resolve_past 7 (BDur 3, BDur 1)) 0 [TVar 0] [] = [] /\
+  (exists t, 7 - 3 <= t <= 7 - 1 /\ holds (Ts 5, Ts 5) t).
+Proof. split; [vm_compute; reflexivity | exists 5; unfold holds, ks, ke; cbn; lia]. Qed.
+Print Assumptions diamond_reversed_window_refuted.
+
+(* int64 wrap in now - d2: the no-overflow hypothesis cannot be dropped *)
+Theorem diamond_minus_overflow_refuted :
+  let now := minInt64 + 1 in
+  let St := [((0, [CName 1]), (Ts (minInt64 + 1), Ts (minInt64 + 1)))] in
+  diamond_facts St (resolve_past now (BDur 0, BDur 5)) 0 [TVar 0] [] = [] /\
+  (exists t, now - 5 <= t <= now - 0 /\ holds (Ts (minInt64 + 1), Ts (minInt64 + 1)) t).
+Proof.
+  split; [vm_compute; reflexivity |].
+  exists (minInt64 + 1). unfold holds, ks, ke, minInt64; cbn; lia.
+Qed.
+Print Assumptions diamond_minus_overflow_refuted.
+
+(* finding N60: an annotation variable that is already bound is not compared
+   with the fact's end point when the other variable is unbound: with E = 2
+   the literal e(X)@[E, E2] returns the fact [5,6] *)
+Theorem annotation_bound_variable_ignored_refuted :
+  eval_plain 3 [((1, [CName 1]), (Ts 5, Ts 6))] 1 [TVar 0] (Some (BVar 11, BVar 12)) [(11, CTime 2); (0, CName 1)]
+  = [[(12, CTime 6); (11, CTime 2); (0, CName 1)]].
+Proof. vm_compute. reflexivity. Qed.
+Print Assumptions annotation_bound_variable_ignored_refuted.
+
+(* without coalescing the box operator is incomplete: [1,3] and [4,6] cover
+   [2,5] but no single interval does *)
+Theorem box_uncoalesced_refuted :
+  let St := [((0, [CName 1]), (Ts 1, Ts 3)); ((0, [CName 1]), (Ts 4, Ts 6))] in
+  box_facts St (resolve_past 6 (BDur 1, BDur 4)) 0 [TVar 0] [] = [] /\
+  (forall t, 6 - 4 <= t <= 6 - 1 -> atom_holds St (0, [CName 1]) t).
+Proof.
+  split; [vm_compute; reflexivity |].
+  intros t Ht. destruct (Z_le_gt_dec t 3).
+  - exists (Ts 1, Ts 3). split; [left; reflexivity | unfold holds, ks, ke; cbn; lia].
+  - exists (Ts 4, Ts 6). split; [right; left; reflexivity | unfold holds, ks, ke; cbn; lia].
+Qed.
+Print Assumptions box_uncoalesced_refuted.
